@@ -335,6 +335,17 @@ func genC12(t *rapid.T) C12Case {
 			c.Files[i].Name = strings.Replace(c.Files[i].Name, "f", "f"+fileInfix, 1)
 		}
 	}
+	if rapid.IntRange(0, 4).Draw(t, "prefixNames") == 0 {
+		// sibling directories one of whose names is a prefix of the other, continued by a character that sorts
+		// below the path separator ("web" / "web-01"): a listing sorted as whole paths differs from one sorted
+		// level by level
+		ren := map[string]string{"grp/a": "grp/web", "grp/b": "grp/web-01", "s1": "s", "s2": "s+2"}
+		for i := range c.Files {
+			if n, ok := ren[c.Files[i].Dir]; ok {
+				c.Files[i].Dir = n
+			}
+		}
+	}
 	c.Cmd = rapid.SampledFrom([]string{"view", "view", "view-raw", "view-raw", "sum", "sum", "diff", "diff", "copy", "copy", "sum-diff", "sum-copy"}).Draw(t, "cmd")
 	manyItems := false
 	if rapid.IntRange(0, 14).Draw(t, "bigListing") == 0 {
@@ -368,7 +379,14 @@ func genC12(t *rapid.T) C12Case {
 			c.Item, c.Pattern = "many/*", "*.wsp"
 		}
 	case "diff", "copy":
-		switch rapid.IntRange(0, 3).Draw(t, "relKind") {
+		switch rapid.IntRange(0, 4).Draw(t, "relKind") {
+		case 4:
+			// a wildcard in a directory level: several directories' files in one listing
+			if i := strings.LastIndexByte(pick.Dir, '/'); i >= 0 {
+				c.Rel = pick.Dir[:i] + "/*/*.wsp"
+			} else {
+				c.Rel = "*/f?.wsp"
+			}
 		case 0:
 			c.Rel = pick.Dir + "/*.wsp"
 		case 1:
